@@ -900,17 +900,37 @@ fn find_listener(k: &Kernel, local: SocketAddr) -> Option<Fd> {
 /// handshaking (`SynReceived`). Charged against the listener's backlog
 /// alongside the accept-ready queue.
 fn count_children(k: &Kernel, listener_fd: Fd, local: SocketAddr) -> usize {
-    k.sockets
-        .connections_on(local)
-        .filter(|(_, fd)| {
-            if *fd == listener_fd {
-                return false;
-            }
-            k.sockets
-                .get(*fd)
+    let handshaking = |fd: Fd| {
+        fd != listener_fd
+            && k.sockets
+                .get(fd)
                 .and_then(|s| s.tcb.as_ref())
                 .map(|t| t.state == TcpState::SynReceived)
                 .unwrap_or(false)
+    };
+    let wildcard = k
+        .sockets
+        .get(listener_fd)
+        .and_then(|s| s.bound.as_ref())
+        .map(|b| b.local_addr.is_unspecified())
+        .unwrap_or(false);
+    if !wildcard {
+        return k
+            .sockets
+            .connections_on(local)
+            .filter(|(_, fd)| handshaking(*fd))
+            .count();
+    }
+    // A wildcard listener owns the children of every local address of
+    // its family on the port, not only those addressed to the same IP
+    // as the SYN at hand.
+    k.sockets
+        .iter()
+        .filter(|(fd, s)| {
+            handshaking(*fd)
+                && s.bound.as_ref().is_some_and(|b| {
+                    b.local_port == local.port() && b.local_addr.is_ipv4() == local.is_ipv4()
+                })
         })
         .count()
 }
